@@ -106,6 +106,18 @@ def check(ctx):
                 r1.ok("visiting.insert(node) dominates the recursive call")
             else:
                 r1.bad(V(r1.id, v.id, "visiting-insert-missing", "the node is not inserted into `visiting` before recursing", c.file, c.line))
+        # the in-progress mark is released only by the activation that set it: every visiting.remove is dominated by this activation's
+        # visiting.insert (an exit taken *because* the mark is set — the cycle branch — must leave it alone: the node is still on the stack)
+        vins = [i for i in v.calls if short_path(i.path) == "HashSet::insert" and recv_name(v, i) == "visiting"]
+        for rm in [c for c in v.calls if short_path(c.path) in ("HashSet::remove", "HashSet::clear", "HashSet::take", "HashSet::retain", "HashSet::drain") and recv_name(v, c) == "visiting"]:
+            if vins and any(v.dominates(i.bb, rm.bb) for i in vins):
+                r1.ok("visiting.%s is dominated by this activation's visiting.insert" % rm.name)
+            else:
+                r1.bad(V(r1.id, v.id, "foreign-mark-released:%s" % rm.name,
+                         "visiting.%s(..) can run on a path that did not insert the mark (the cycle exit): the node on the stack loses its in-progress mark and a second cycle through it emits it twice" % rm.name,
+                         rm.file, rm.line))
+        for rm in [c for c in v.calls if short_path(c.path) in ("HashSet::remove", "HashSet::clear", "HashSet::retain", "HashSet::drain") and recv_name(v, c) == "visited"]:
+            r2.bad(V(r2.id, v.id, "visited-shrinks:%s" % rm.name, "`visited` loses elements (%s): a finished type can be emitted again" % rm.name, rm.file, rm.line))
         # D2
         if len(pushes) != 1:
             r2.bad(V(r2.id, v.id, "push-sites:%d" % len(pushes), "expected exactly one sorted.push in topological_visit, found %d" % len(pushes)))
